@@ -859,7 +859,19 @@ pub fn oracle(prop: &str, env: &Env, txs: &[Transaction], acc: &mut Acc, tier: T
         "C01" => oracle_c01(env, txs, acc),
         "C02" => oracle_c02(env, txs, acc),
         "C03" => oracle_c03(env, txs, acc),
-        "C05" => oracle_c05(env, txs, acc),
+        "C05" => {
+            // the canonical line order keeps rows of one (date, security) adjacent; duplicated rows from overlapping
+            // export chunks are not, so the same ledger is also run in an interleaved line order
+            let mut v = oracle_c05(env, txs, acc);
+            for il in profiles::other_orders(txs) {
+                acc.bump("interleaved-line-order-also-run");
+                let mut a2 = Acc::new();
+                let v2 = oracle_c05(env, &il, &mut a2);
+                acc.validated += 1;
+                v.extend(with_ctx(v2, json!({"variant": "interleaved line order", "ledger_as_run": dsl_text(&il)}), None));
+            }
+            v
+        }
         "C09" => oracle_c09(env, txs, acc),
         "C10" => oracle_c10(env, txs, acc),
         "C11" => oracle_c11(env, txs, acc),
@@ -869,6 +881,18 @@ pub fn oracle(prop: &str, env: &Env, txs: &[Transaction], acc: &mut Acc, tier: T
 }
 
 fn visit(prop: &str, ctx: &Ctx, env: &Env, acc: &mut Acc, txs: &[Transaction], profile: &str) {
+    // conservation / arithmetic laws hold in every line order: also run an order in which rows of one
+    // (date, security, kind) are not adjacent (the canonical order keeps them adjacent, where the tool merges them)
+    if matches!(prop, "C02" | "C03" | "C09" | "C11") {
+        for il in profiles::other_orders(txs) {
+            acc.bump("interleaved-line-order-also-run");
+            visit_one(prop, ctx, env, acc, &il, profile);
+        }
+    }
+    visit_one(prop, ctx, env, acc, txs, profile);
+}
+
+fn visit_one(prop: &str, ctx: &Ctx, env: &Env, acc: &mut Acc, txs: &[Transaction], profile: &str) {
     let obs = oracle(prop, env, txs, acc, ctx.tier);
     acc.sample(txs.len(), || json!({"profile": profile, "ledger": dsl_text(txs)}));
     for o in obs {
@@ -966,6 +990,7 @@ pub fn c02(tier: Tier) -> i32 {
     explore_alpha("C02", &mut ctx, &env, &profiles::match1(&["2"], false), n_full, &mut acc);
     explore_alpha("C02", &mut ctx, &env, &profiles::match1(&["3", "2.5"], true), n_red, &mut acc);
     explore_alpha("C02", &mut ctx, &env, &profiles::two_sec(), n_two, &mut acc);
+    explore_alpha("C02", &mut ctx, &env, &crate::perm::fills_alphabet(), n_two, &mut acc);
     explore_list("C02", &mut ctx, &env, "compete", profiles::compete_ledgers(), &mut acc, "competing disposals (see C01)");
     for k in ["legs:same-day", "legs:30-day", "legs:section-104", "shape:30-day-leg-across-split", "shape:several-disposals-claim-one-acquisition-day", "shape:disposal-spread-over-several-rules"] {
         ctx.require(acc.get(k) > 0, &format!("no state exhibited {k}"));
@@ -987,6 +1012,8 @@ pub fn c05(tier: Tier) -> i32 {
     };
     explore_alpha("C05", &mut ctx, &env, &profiles::match1(&["2"], false), n_full, &mut acc);
     explore_alpha("C05", &mut ctx, &env, &profiles::oversell(), n_over, &mut acc);
+    explore_alpha("C05", &mut ctx, &env, &profiles::oversell_two_sec(), n_over, &mut acc);
+    ctx.require(acc.get("interleaved-line-order-also-run") > 0, "no ledger was run in an interleaved order");
     ctx.require(acc.get("covered-and-accepted") > 0, "no covered ledger");
     ctx.require(acc.get("shape:uncovered") > 0, "no uncovered ledger");
     ctx.bound = json!({"match1_max_events": n_full, "oversell_max_events": n_over});
@@ -1007,6 +1034,7 @@ pub fn c03(tier: Tier) -> i32 {
     explore_alpha("C03", &mut ctx, &env, &profiles::events(&["2"]), n_ev, &mut acc);
     explore_alpha("C03", &mut ctx, &env, &profiles::events_fx(), n_fx, &mut acc);
     explore_alpha("C03", &mut ctx, &env, &profiles::two_sec(), n_two, &mut acc);
+    explore_alpha("C03", &mut ctx, &env, &crate::perm::fills_alphabet(), n_two + 1, &mut acc);
     for k in ["legs:same-day", "legs:30-day", "legs:section-104", "shape:adjustment-while-shares-held", "shape:adjustment-with-no-shares-held", "shape:30-day-leg-across-split"] {
         ctx.require(acc.get(k) > 0, &format!("no state exhibited {k}"));
     }
